@@ -1,5 +1,5 @@
 SPECIFICATION Spec
 CONSTRAINT TrackL
-INVARIANTS Physical ConservedPeriodic ConservedReflective LayoutIndependent OneThreadBitwise NotAccepted
+INVARIANTS Physical ConservedPeriodic ConservedReflective LayoutIndependent OneThreadBitwise
 POSTCONDITION PrintMaxL
 CHECK_DEADLOCK FALSE
